@@ -172,7 +172,7 @@ def enum_classics(tier):
 
 
 def enum_tiny(tier):
-    stride = 25 if tier == "quick" else 2
+    stride = 8 if tier == "quick" else 1
 
     def it():
         for i, g in enumerate(gen.tiny_grammars(1 if tier == "quick" else 2)):
@@ -186,9 +186,9 @@ def enum_tiny(tier):
 SUBCHECKS = [
     SubCheck("classics", run_case, enumerate=enum_classics),
     SubCheck("tiny-exhaustive", run_case, enumerate=enum_tiny),
-    SubCheck("random-L0", run_case, strategy=strat_l0, examples={"quick": 1600, "thorough": 12000}),
-    SubCheck("random-L0-larger", run_case, strategy=strat_l0_big, examples={"quick": 400, "thorough": 4000}),
-    SubCheck("random-L1-overlapping", run_case, strategy=strat_l1, examples={"quick": 480, "thorough": 4000}),
+    SubCheck("random-L0", run_case, strategy=strat_l0, examples={"quick": 6400, "thorough": 60000}),
+    SubCheck("random-L0-larger", run_case, strategy=strat_l0_big, examples={"quick": 1600, "thorough": 16000}),
+    SubCheck("random-L1-overlapping", run_case, strategy=strat_l1, examples={"quick": 1600, "thorough": 16000}),
 ]
 
 
